@@ -2,7 +2,7 @@
 ID = "C15"
 PROPS = "Props/C15.v"
 COQ_TIMEOUT = 5400   # Coq build of this property incl. rebuilt dependencies; generous: on a loaded machine a rebuild after an upstream edit took > 1500 s
-GEN = ["hstables"]      # suite tables, default suite lists, version/size constants, message/alert/ClientAuth numbers, the reads of every flight
+GEN = ["hstables", "hssig"]      # suite tables, default suite lists, version/size constants, message/alert/ClientAuth numbers, the reads of every flight
 LEGS = [{"driver": "c15", "runner": ("hs", "Extract/ExtractHS.v", "Hs_model"), "timeout": 3000}]
 
 TECHNIQUE = ("Coq proofs over message-level state machines of the gmtls client and server handshakes (GMSSL-only, auto-switch, TLS) "
@@ -77,7 +77,7 @@ def nontrivial(f):
 
 
 def classify(f, io):
-    k = f[0] + (":" + f[2] if f[0] in ("S", "H", "V", "R", "PM", "PW") else "")
+    k = f[0] + (":" + f[2] if f[0] in ("S", "H", "V", "R", "PM", "PW", "PE") else "")
     if f[0] == "PW":
         return k + ":wf" + f[4] + ":rt" + (io[-1] if io else "none")
     return k + ":" + (io[0] if io else "none")
@@ -122,7 +122,7 @@ def same(f, io, mo):
     if io == mo:
         return True
     op = f[0]
-    if op in ("PK", "PS") and mo and mo[0] == "any":
+    if op in ("PK", "PS", "PE") and mo and mo[0] == "any":
         return io[0] in ("ok", "err")
     if op == "PH" and mo and mo[-1] == "any":
         pre = mo[0]
